@@ -14,7 +14,9 @@
     X(poolcheck) X(addsched)                                                  \
     X(susp) X(resume) X(sample) X(selfstate) X(expectstate) X(popyt) X(tyt)   \
     X(popsusp) X(ryt) X(rst) X(popexit) X(rexit) X(presume) X(migpool)        \
-    X(migsched) X(migxs) X(migrate) X(setcb)
+    X(migsched) X(migxs) X(migrate) X(setcb)                                  \
+    X(keyset) X(selfset) X(tset) X(keyget) X(selfget) X(tget)                 \
+    X(xscreate) X(xsbasic) X(setrank) X(rankcheck) X(xsrevive) X(setmain)
 
 enum {
 #define X(n) OP_##n,
@@ -39,6 +41,11 @@ static void check_start_stream(actor *a);
 static void notify_done(void);
 static void migr_callback(ABT_thread thread, void *cb_arg);
 static void op_addsched(actor *a, int p, int s);
+static void op_xscreate(actor *a, int xi, int rank, int exact, int basic);
+static void op_setrank(actor *a, int xi, int rank);
+static void op_rankcheck(actor *a, int check_num);
+static void op_xsrevive(actor *a, int xi);
+static void op_setmain(actor *a, int xi, int kind);
 
 static int is_ult_actor(actor *a)
 {
@@ -331,6 +338,7 @@ static void op_unlock(actor *a, int m, int variant)
 #include "ops_sync.h"
 #include "ops_unit.h"
 #include "ops_switch.h"
+#include "ops_key.h"
 
 /* ------------------------------------------------------------------ */
 static void exec_op(actor *a, op_t *o)
@@ -523,6 +531,42 @@ static void exec_op(actor *a, op_t *o)
         case OP_setcb:
             op_setcb(a, a0);
             break;
+        case OP_keyset:
+            op_kset(a, 0, a0, 0, a1 == 1);
+            break;
+        case OP_selfset:
+            op_kset(a, 0, a0, 1, a1 == 1);
+            break;
+        case OP_tset:
+            op_kset(a, a0, a1, 2, o->a[2] == 1);
+            break;
+        case OP_keyget:
+            op_kget(a, 0, a0, 0);
+            break;
+        case OP_selfget:
+            op_kget(a, 0, a0, 1);
+            break;
+        case OP_tget:
+            op_kget(a, a0, a1, 2);
+            break;
+        case OP_xscreate:
+            op_xscreate(a, a0, a1, o->a[2] != 0, 0);
+            break;
+        case OP_xsbasic:
+            op_xscreate(a, a0, -1, a1 != 0, 1);
+            break;
+        case OP_setrank:
+            op_setrank(a, a0, a1);
+            break;
+        case OP_rankcheck:
+            op_rankcheck(a, a0 != 0);
+            break;
+        case OP_xsrevive:
+            op_xsrevive(a, a0);
+            break;
+        case OP_setmain:
+            op_setmain(a, a0, a1);
+            break;
         case OP_join:
             op_join(a, (int)o->a[0]);
             break;
@@ -600,9 +644,19 @@ static void *ext_main(void *arg)
 static void setup_pools(void)
 {
     int rc;
-    for (int i = 0; i < G.nxs; i++)
-        for (int k = 0; k < G.xs[i].npools; k++)
-            G.pool[G.xs[i].pools[k]].attached++;
+    int ondemand[MAXP] = { 0 };
+    for (int i = 0; i < G.nxs; i++) {
+        for (int k = 0; k < G.xs[i].npools; k++) {
+            if (G.xs[i].late)
+                ondemand[G.xs[i].pools[k]] |= 1;
+            else {
+                G.pool[G.xs[i].pools[k]].attached++;
+                ondemand[G.xs[i].pools[k]] |= 2;
+            }
+        }
+        for (int k = 0; k < G.xs[i].nalt; k++)
+            ondemand[G.xs[i].alt[k]] |= 1;
+    }
     for (int i = 0; i < G.nsub; i++)
         for (int k = 0; k < G.sub[i].npools; k++) {
             G.pool[G.sub[i].pools[k]].attached++;
@@ -616,6 +670,8 @@ static void setup_pools(void)
             CHECK_RC(rc, "ABT_xstream_get_main_pools");
             continue;
         }
+        if (ondemand[i] == 1)
+            continue; /* created when a late stream / a new main scheduler needs it */
         if (p->kind <= 2) {
             rc = ABT_pool_create_basic(pk_map[p->kind], pa_map[p->access],
                                        p->attached ? ABT_TRUE : ABT_FALSE, &p->h);
@@ -673,6 +729,8 @@ static void migr_callback(ABT_thread thread, void *cb_arg)
         viol("migration callback of u%d got another thread handle", u->id);
     AINC(u->cb_count);
 }
+
+#include "ops_stream.h"
 
 static void final_unit_checks(const char *when)
 {
@@ -769,6 +827,10 @@ static void run_program(void)
         }
     }
     g_clock0 = ds_now();
+    for (int i = 0; i < G.nkey; i++) {
+        rc = ABT_key_create(G.key_dtor[i] ? key_dtor_common : NULL, &G.key[i]);
+        CHECK_RC(rc, "ABT_key_create");
+    }
     for (int i = 0; i < G.ncond; i++) {
         if (G.cond_kind[i] == 0) {
             rc = ABT_cond_create(&G.cond[i]);
@@ -882,9 +944,15 @@ static void run_program(void)
             rc = ABT_pool_free(&G.pool[i].h);
             CHECK_RC(rc, "ABT_pool_free");
         }
+    for (int i = 0; i < G.nkey; i++) {
+        rc = ABT_key_free(&G.key[i]);
+        CHECK_RC(rc, "ABT_key_free");
+    }
     rc = ABT_finalize();
     CHECK_RC(rc, "ABT_finalize");
     final_unit_checks("finalize");
+    if (G.nkey)
+        key_final_checks();
 }
 
 static void run_special_mode(void)
